@@ -282,3 +282,17 @@ package expr
 //@ func (*shift).SubMergers
 //@   modifies *
 //@   at call (*expr.shift).shiftedSubMerger assert steps_by_stored_field_width: callarg2 == subs[i].EncodedWidth()
+
+// C04: building a query expression never writes an existing expression object (stored field definitions are shared with
+// the table): SHIFT allocates a new wrapper, whatever it wraps.
+//@ func SHIFT
+//@   modifies nothing
+//@   ensures new_wrapper: result != nil && isType(result, "*expr.shift")
+
+// exprFor turns a Go value into an expression (constants, field references); it writes nothing that exists.
+//@ func exprFor
+//@   modifies nothing
+//@ func CONST
+//@   modifies nothing
+//@ func FIELD
+//@   modifies nothing
